@@ -25,7 +25,7 @@ fn uq(sql: &str) -> Unit {
 }
 
 pub const PROGRAMS: &[&str] = &[
-    "opentxn", "failedtxn", "set", "setrole", "prepare", "namedparse", "halfbatch", "copyin", "setext", "named-in-txn", "hangstmt",
+    "opentxn", "failedtxn", "set", "setrole", "prepare", "namedparse", "halfbatch", "copyin", "setext", "named-in-txn", "hangstmt", "hangstmt-auto", "slowstmt-auto",
     "setrole-then-txn", "set-then-txn", "prepare-in-failedtxn", "named-in-failedtxn",
 ];
 
@@ -120,6 +120,9 @@ pub fn victim_units(prog: &str) -> (Vec<Unit>, Vec<Unit>) {
             ],
             vec![uq(&format!("ROLLBACK /*{}*/", t(0, 3)))],
         ),
+        // the same outside a transaction block: never answered / answered after the statement timeout
+        "hangstmt-auto" => (vec![u(wire::query(&format!("SELECT HANG! /*{}*/", t(0, 0))), "Q SELECT HANG!", 0)], vec![]),
+        "slowstmt-auto" => (vec![u(wire::query(&format!("SELECT SLOW! /*{}*/", t(0, 0))), "Q SELECT SLOW!", 0)], vec![]),
         "hangstmt" => (
             vec![uq(&format!("BEGIN /*{}*/", t(0, 0))), u(wire::query(&format!("SELECT HANG! /*{}*/", t(0, 1))), "Q SELECT HANG!", 0)],
             vec![],
@@ -131,6 +134,10 @@ pub fn victim_units(prog: &str) -> (Vec<Unit>, Vec<Unit>) {
 pub const ENDINGS: &[&str] = &[
     "natural", "terminate", "harddrop", "fin", "bad-close", "bad-describe", "bind-unknown", "short-length", "unknown-type", "idle-timeout", "stmt-timeout",
 ];
+
+fn is_hang(prog: &str) -> bool {
+    matches!(prog, "hangstmt" | "hangstmt-auto" | "slowstmt-auto")
+}
 
 /// Build the scenario; `cut` = (unit index, byte offset). offset 0 = at the message boundary before that unit.
 pub fn scenario(mode: &str, cache: usize, prog: &str, cut: (usize, usize), ending: &str, second_victim: Option<&str>) -> Option<Scenario> {
@@ -144,10 +151,10 @@ pub fn scenario(mode: &str, cache: usize, prog: &str, cut: (usize, usize), endin
     match ending {
         "natural" if !at_end => return None,
         "terminate" | "bad-close" | "bad-describe" | "bind-unknown" | "short-length" | "unknown-type" | "idle-timeout" if !at_boundary => return None,
-        "stmt-timeout" if prog != "hangstmt" || !at_end => return None,
+        "stmt-timeout" if !is_hang(prog) || !at_end => return None,
         _ => {}
     }
-    if prog == "hangstmt" && !(ending == "stmt-timeout" || ((ending == "harddrop" || ending == "fin") && at_end)) {
+    if is_hang(prog) && !(ending == "stmt-timeout" || ((ending == "harddrop" || ending == "fin") && at_end)) {
         return None;
     }
     if ending == "idle-timeout" {
@@ -161,7 +168,7 @@ pub fn scenario(mode: &str, cache: usize, prog: &str, cut: (usize, usize), endin
     }
     let mut pool = PoolCfg::simple("db", mode, 1, 1, 0);
     pool.extra = format!("prepared_statements_cache_size = {}\n", cache);
-    if ending == "stmt-timeout" || prog == "hangstmt" {
+    if ending == "stmt-timeout" || is_hang(prog) {
         pool.users[0].extra = "statement_timeout = 2000\n".into();
     }
     let mut cfg = Cfg::one(pool);
@@ -169,8 +176,10 @@ pub fn scenario(mode: &str, cache: usize, prog: &str, cut: (usize, usize), endin
         cfg.idle_in_txn_timeout = 3000;
     }
     let mut servers = cfg.servers();
-    if prog == "hangstmt" {
+    if is_hang(prog) {
         servers[0].faults.push(Fault { on: Matcher::Contains("HANG!".into()), kind: FaultKind::Hang, once: true });
+        // answered one second after the pooler's statement timeout (2000 ms) has given up on it
+        servers[0].faults.push(Fault { on: Matcher::Contains("SLOW!".into()), kind: FaultKind::Delay(3000), once: true });
     }
 
     let mut s = Script::new("victim").connect("alice", "db", Some("alicepw"));
